@@ -40,8 +40,8 @@ class C13(Prop):
 
     def plan(self, tier):
         if tier == "quick":
-            return {"units": 5000, "budget_s": 80, "block": 50}
-        return {"units": 200000, "budget_s": 1700, "block": 100}
+            return {"units": 16000, "budget_s": 100, "block": 50}
+        return {"units": 480000, "budget_s": 1700, "block": 100}
 
     def gen(self, rng, idx, tier):
         nn = rng.choice([2, 2, 3])
@@ -163,21 +163,21 @@ class C13(Prop):
         # ---- ordered atoms: failed contacts, successful contacts, commands
         atoms = []
         seen_fail = set()       # one contact = one socket
-        for seq, nid, kind, cid, sid in w.health_log:
+        for seq, nid, kind, cid, sid, now in w.health_log:
             if nid is None or sid in seen_fail:
                 continue
             seen_fail.add(sid)
-            atoms.append((seq, 0, "fail", nid, cid, kind))
+            atoms.append((seq, 0, "fail", nid, cid, kind, now))
         seen_ok = set()
-        for seq, nid, cid, sid in w.ok_log:
+        for seq, nid, cid, sid, now in w.ok_log:
             if (cid, sid) in seen_ok or sid in seen_fail:
                 continue
             seen_ok.add((cid, sid))
-            atoms.append((seq, 1, "ok", nid, cid, None))
+            atoms.append((seq, 1, "ok", nid, cid, None, now))
         for rec in res.calls:
             for c in rec.commands:
                 if c[2] is not None:
-                    atoms.append((c[4], 2, "cmd", c[0], rec.id, c[2]))
+                    atoms.append((c[4], 2, "cmd", c[0], rec.id, c[2], rec.t0))
         atoms.sort(key=lambda a: (a[0], a[1]))
 
         # down periods (by step order -> call ids)
@@ -208,14 +208,14 @@ class C13(Prop):
             ks = list(a0.keys()) if isinstance(a0, dict) else (list(a0) if isinstance(a0, (list, tuple)) else [a0])
             for k in ks:
                 wk_rk[prefix + (k.encode() if isinstance(k, str) else k)] = k
-        for seq, _, kind, nid, cid, extra in atoms:
+        for seq, _, kind, nid, cid, extra, now in atoms:
             rec = calls.get(cid)
             if rec is None or rec.step < 0:
                 continue
             if kind == "fail":
                 evicting[nid] = False          # being contacted: it is in rotation right now
                 fails[nid] += 1
-                contact_times[nid].append((rec.t0, cid, rec.step))
+                contact_times[nid].append((now, cid, rec.step))
             elif kind == "ok":
                 if step_health[rec.step][nid] == "up":
                     # The call that takes a server out of rotation still contacts it once; if that contact
@@ -225,7 +225,7 @@ class C13(Prop):
                     evicting[nid] = ra >= 1 and fails[nid] >= ra + 1
                     fails[nid] = 0
                 else:
-                    contact_times[nid].append((rec.t0, cid, rec.step))
+                    contact_times[nid].append((now, cid, rec.step))
             else:
                 rk = wk_rk.get(extra)
                 if rk is None:
@@ -296,7 +296,7 @@ class C13(Prop):
             elif st["t"] == "advance":
                 key.append(("adv", st["dt"]))
         fl = {}
-        for seq, nid, kind, cid, _sid in res.world.health_log:
+        for seq, nid, kind, cid, _sid, _now in res.world.health_log:
             fl.setdefault(cid, set()).add(nid)
         for c in res.calls:
             if c.step < 0 or c.step >= scn["heal"]:
@@ -317,10 +317,10 @@ class C13(Prop):
         h = {}
         last_contact = {}
         fl = {}
-        for seq, nid, kind, cid, _sid in w.health_log:
+        for seq, nid, kind, cid, _sid, _now in w.health_log:
             fl.setdefault(cid, set()).add(nid)
         okl = {}
-        for seq, nid, cid, _sid in w.ok_log:
+        for seq, nid, cid, _sid, _now in w.ok_log:
             okl.setdefault(cid, set()).add(nid)
         rt = scn["world"]["client_kwargs"]["retry_timeout"]
         calls = {c.step: c for c in res.calls}
@@ -358,7 +358,7 @@ class C13(Prop):
         nid_name = {n["id"]: names[i] for i, n in enumerate(scn["world"]["nodes"])}
         prefix = codec.dec(ck.get("key_prefix", E(b"")))
         fl = {}
-        for seq, nid, kind, cid, _sid in w.health_log:
+        for seq, nid, kind, cid, _sid, _now in w.health_log:
             fl.setdefault(cid, set()).add(nid)
             if kind == "eof":
                 p["failure-kind-eof"] = 1
